@@ -10,6 +10,7 @@ CONSTANTS
   QW = 1
   MaxNow = 3
   Shutdowns = FALSE
+  Faults = FALSE
   SplitSlotCheck = FALSE
   RequeueNewTs = TRUE
   StopAllGuarded = TRUE
@@ -18,6 +19,8 @@ CONSTANTS
   HeapFifo = TRUE
   SlotStrict = TRUE
   CallsStopAll = TRUE
+  PushBeforeRegister = FALSE
+  FaultDropsHead = FALSE
 SPECIFICATION Spec
 INVARIANTS TypeOK OneVerdict OnlyIfQuota SizeBound NoCrash Protocol Faithful OrderKF
 VIEW View
